@@ -681,7 +681,7 @@ pub fn run_c08(ctx: &mut Ctx) -> Verdict {
     let h1 = r1.handle();
     let p1 = do_parse(fl, hs, base, r1);
     let fam = fl.name();
-    crate::rt::check_noisy_read(ctx, fam, fam, &p0, &p1, &h1, &plan, &doc, fl.hash_sensitive(), false)?;
+    crate::rt::check_noisy_read(ctx, fam, fam, &p0, &p1, &h1, &plan, &doc, fl.hash_sensitive(), false, false)?;
     let bad = validate_items(fl, &p1.items);
     ensure!(
         bad.is_empty(),
